@@ -9,6 +9,7 @@
   snapshot        : `D<path>` / `F<path>=<hex>` for every path except the root, sorted as strings, `;`-joined.
 -/
 import Arrai.C19.Model
+import Arrai.C19.Exact
 
 namespace Arrai.C19
 
@@ -154,7 +155,7 @@ def mkCase (id stratum : String) (φ : List Nat) (v : Val) (mode : Impl.Mode) (v
   let fired := (Impl.run φ v mode arg fs).2.fired
   let spec := if fired then "error|fault" else specObs names v mode arg fs
   { id := id, stratum := stratum,
-    cls := if mode != .dir || v.plain then "good" else "KF-out-key-with-separator",
+    cls := if mode != .dir || !aliasOrMissingParent v (get arg fs) then "good" else "KF-out-key-with-separator",
     kind := "out", model := model, spec := spec,
     payload := [valSrc v, modeFlag mode variant ++ pathStr arg, treeStr root,
                 ",".intercalate (φ.map toString)] }
@@ -175,11 +176,34 @@ def genText : Gen Bytes := do
   let n ← rand 3
   genList (n + 1) (pick [120, 121, 122, 32, 46])
 
+/-- more than 8 KiB of one letter and a short tail: two such contents of equal length agree on every
+leading block and differ only at the end -/
+def genBig : Gen Bytes := do
+  let n ← pick [8192, 8200, 12288]
+  let tail ← genText
+  pure (List.replicate n 120 ++ tail)
+
 def genData : Gen Val := do
-  let r ← rand 10
-  if r < 6 then pure (.data false (← genText))
-  else if r < 9 then pure (.data true (← genBytes))
+  let r ← rand 40
+  if r = 0 then pure (.data false (← genBig))
+  else if r < 24 then pure (.data false (← genText))
+  else if r < 36 then pure (.data true (← genBytes))
   else pure (.data false [])
+
+/-- the same length, differing only in the last byte -/
+def tweakLast (bs : Bytes) : Bytes :=
+  match bs.reverse with
+  | [] => []
+  | l :: r => (((l + 1) % 256) :: r).reverse
+
+/-- a pre-existing file where `bs` is about to be written: the same length (differing in the last byte only,
+or everywhere), identical, or unrelated -/
+def fileNear (bs : Bytes) : Gen Node := do
+  let c ← rand 6
+  if c < 2 then pure (.file (tweakLast bs))
+  else if c = 2 && bs.length ≤ 64 then pure (.file (bs.map (fun b => (b + 1) % 256)))
+  else if c = 3 then pure (.file bs)
+  else pure (.file (← genBytes))
 
 /-- keys the code must refuse -/
 def refusedKeys : List Key :=
@@ -263,6 +287,12 @@ def genTree : Nat → Gen (List (Name × Node))
       ch := insertNew nm node ch
     pure ch
 
+/-- the directories leading to the last element of `rel`, with `leaf` (if any) at it -/
+def chain : List Name → Option Node → Node
+  | [], _ => .dir []
+  | [m], leaf => .dir (match leaf with | some l => [(m, l)] | none => [])
+  | m :: rest, leaf => .dir [(m, chain rest leaf)]
+
 mutual
 /-- a pre-existing directory that overlaps the entries: per entry nothing, the same kind, or the other kind -/
 def treeForEntries : List (Key × Val) → Nat → Gen (List (Name × Node))
@@ -271,6 +301,16 @@ def treeForEntries : List (Key × Val) → Nat → Gen (List (Name × Node))
   | (k, v) :: r, d => do
     let rest ← treeForEntries r d
     match k.rel with
+    | some (n :: m :: more) =>
+      -- a key of several elements: mostly with its parent directories in place
+      let c ← rand 10
+      if c < 7 then
+        let l ← rand 3
+        let leaf ← if l = 0 then pure none else if l = 1 then (do pure (some (← nodeFor v d)))
+                   else (do pure (some (Node.dir (← genTree 1))))
+        pure (insertNew n (chain (m :: more) leaf) rest)
+      else if c < 8 then pure (insertNew n (.file (← genBytes)) rest)
+      else pure rest
     | some (n :: _) =>
       let c ← rand 10
       if c < 3 then pure rest
@@ -283,6 +323,8 @@ def nodeFor : Val → Nat → Gen Node
   | .dict (e :: es), d => do pure (.dir (← treeForEntries (e :: es) (d - 1)))
   | .tup _ (some (.dict es)) _, d => do pure (.dir (← treeForEntries es (d - 1)))
   | .tup _ (some _) _, _ => do pure (.dir (← genTree 1))
+  | .data _ bs, _ => fileNear bs
+  | .tup _ none (some (.data _ bs)), _ => fileNear bs
   | _, _ => do pure (.file (← genBytes))
 end
 
@@ -311,7 +353,7 @@ def topEntries : Val → List (Key × Val)
 
 def genDirCase (id : String) (big : Bool) : Gen Case := do
   let hostile ← chance 3 10
-  let odd ← chance 1 10
+  let odd ← chance 2 10
   let kn : Knobs := { hostile := hostile, odd := odd }
   let depth ← pick (if big then [1, 2, 3, 3] else [1, 2, 2, 3])
   let v ← if hostile && (← chance 1 12) then genVal kn 1 else genDict kn (depth - 1)
@@ -321,7 +363,8 @@ def genDirCase (id : String) (big : Bool) : Gen Case := do
   let sub ← treeForEntries (topEntries v) depth
   let (arg, fs) := mkFs sc sub
   let variant ← rand 2
-  let strat := "dir/" ++ (if !v.plain then "oddkeys" else if hostile then "hostile" else "clean") ++
+  let strat := "dir/" ++ (if aliasOrMissingParent v (get arg (Root.toT fs)) then "alias-or-missing-parent"
+      else if !v.plain then "pathkeys" else if hostile then "hostile" else "clean") ++
     (match sc with | .fresh => "/fresh" | .existing => "/existing" | .fileAtPath => "/file-at-path" | .noParent => "/no-parent")
   pure (mkCase id strat [] v .dir variant arg fs)
 
@@ -334,7 +377,7 @@ def genFileCase (id : String) : Gen Case := do
   -- PATH = /o/f : absent, a file, a directory, or below a missing directory
   let (arg, fs) : Path × Root :=
     if sc < 2 then ([nO, [102]], [(nO, .dir outside)])
-    else if sc < 3 then ([nO, [102]], [(nO, .dir (([102], .file [7, 7]) :: outside))])
+    else if sc < 3 then ([nO, [102]], [(nO, .dir (([102], .file (tweakLast ((Spec.bytesOf v).getD [7, 7]))) :: outside))])
     else if sc < 4 then ([nO, [102]], [(nO, .dir (([102], .dir [(nA, .file [1])]) :: outside))])
     else ([nQ, [102]], [(nO, .dir outside)])
   pure (mkCase id ("file/" ++ (if mode = .bad then "badmode" else "mode")) [] v mode variant arg fs)
@@ -359,6 +402,8 @@ def genValidDir (big : Bool) (tries : Nat) : Gen (Val × Path × Root × Nat) :=
 def corpusV (es : List (Key × Val)) : Val := .dict es
 def txt (s : String) : Val := .data false (s.toList.map Char.toNat)
 def key (s : String) : Key := .str (s.toList.map Char.toNat)
+
+def bigX : Bytes := List.replicate 8200 120 ++ [121, 122]
 
 /-- witnesses of the repaired defects and of the known finding; always run first -/
 def corpus : List Case :=
@@ -398,7 +443,30 @@ def corpus : List Case :=
                 (key "c", .tup (some .ignore) none (some (txt "x"))),
                 (key "d", .tup (some .replace) (some (.dict [])) none)]) .dir 0 ex.1 ex.2,
     mkCase "C19-corpus-13" "corpus" [] (txt "hello") .file 0 [nO, [102]] fresh.2,
-    mkCase "C19-corpus-14" "corpus" [] (.data false []) .dir 0 fresh.1 fresh.2 ]
+    mkCase "C19-corpus-14" "corpus" [] (.data false []) .dir 0 fresh.1 fresh.2,
+    -- a key of two elements whose parent exists is written (outside the class)
+    mkCase "C19-corpus-15" "corpus" [] (corpusV [(key "keep/n", txt "x"), (key "b", txt "y")]) .dir 0 ex.1 ex.2,
+    -- aliasing entries, both orders (in the class)
+    mkCase "C19-corpus-16" "corpus" [] (corpusV [(key "a", corpusV [(key "b", txt "y")]), (key "a/b", txt "x")]) .dir 0
+      (mkFs .existing []).1 (mkFs .existing []).2,
+    -- replace whose new content names a path: the old tree is deleted, then the write fails (in the class)
+    mkCase "C19-corpus-17" "corpus" [] (corpusV [(key "keep", .tup (some .replace) (some (corpusV [(key "p/q", txt "x")])) none)])
+      .dir 0 ex.1 ex.2,
+    -- long files that agree with what is there in length and in every leading block, and differ in the last byte
+    mkCase "C19-corpus-18" "corpus" [] (corpusV [(key "big", .data false bigX)]) .dir 0
+      (mkFs .existing [([98, 105, 103], .file (tweakLast bigX))]).1 (mkFs .existing [([98, 105, 103], .file (tweakLast bigX))]).2,
+    mkCase "C19-corpus-19" "corpus" [] (.data false bigX) .file 0 [nO, [102]] [(nO, .dir (([102], .file (tweakLast bigX)) :: outside))],
+    mkCase "C19-corpus-20" "corpus" [] (corpusV [(key "s", txt "abc")]) .dir 0
+      (mkFs .existing [([115], .file [97, 98, 100])]).1 (mkFs .existing [([115], .file [97, 98, 100])]).2,
+    -- file mode: empty content, PATH is a directory, the parent of PATH is missing, unknown mode
+    mkCase "C19-corpus-21" "corpus" [] (.data false []) .file 1 [nO, [102]] fresh.2,
+    mkCase "C19-corpus-22" "corpus" [] (.data true []) .file 2 [nO, [102]] [(nO, .dir (([102], .file [1, 2]) :: outside))],
+    mkCase "C19-corpus-23" "corpus" [] (txt "x") .file 0 [nO, [102]] [(nO, .dir (([102], .dir [(nA, .file [1])]) :: outside))],
+    mkCase "C19-corpus-24" "corpus" [] (txt "x") .file 0 [nQ, [102]] fresh.2,
+    mkCase "C19-corpus-25" "corpus" [] (txt "x") .bad 0 [nO, [102]] fresh.2,
+    mkCase "C19-corpus-26" "corpus" [] (.other false) .file 0 [nO, [102]] fresh.2,
+    -- file mode under a fault: Create (call 1) fails
+    mkCase "C19-corpus-27" "corpus" [1] (txt "x") .file 0 [nO, [102]] fresh.2 ]
 
 def gen (seed n : Nat) (thorough : Bool) : List Case := Id.run do
   let mut out := corpus.reverse
@@ -421,6 +489,11 @@ def gen (seed n : Nat) (thorough : Bool) : List Case := Id.run do
           pure (a, b)).run st
       out := mkCase s!"C19-f{j}-a" "fault/one" [k1] v .dir k1 arg fs :: out
       out := mkCase s!"C19-f{j}-b" "fault/two" [k1, k2] v .dir k2 arg fs :: out
+  -- file mode under faults: Stat, Create, Write, Sync, Close (calls 0‥4) and one past the end
+  for j in [0:3] do
+    let (v, _) := genData.run (seedOf seed (1960000 + j))
+    for k in [0:6] do
+      out := mkCase s!"C19-ff{j}-{k}" "fault/file-mode" [k] v .file k [nO, [102]] (mkFs .fresh []).2 :: out
   pure out.reverse
 
 end Arrai.C19
